@@ -77,7 +77,7 @@ func (checker *ChecksumChecker) Value(t *ast.Task) (any, error) {
 }
 
 func (checker *ChecksumChecker) OnError(t *ast.Task) error {
-	if len(t.Sources) == 0 {
+	if len(t.Sources) == 0 || checker.dry {
 		return nil
 	}
 	return os.Remove(checker.checksumFilePath(t))
